@@ -700,7 +700,17 @@ func typedRewrites(fset *token.FileSet, f *ast.File, info *types.Info, ed *edito
 							try = "TryRLock"
 						}
 						recv := text(sel.X)
-						ed.replace(off(x.Pos()), off(x.End()), rtImportName+".Lock("+recv+"."+try+", "+recv+"."+name+")")
+						if strings.Contains(recvTypeName(sel), "RWMutex") {
+							// Go's RWMutex prefers writers: once a Lock is waiting, new RLocks wait
+							// too (so a recursive read lock deadlocks against a pending writer)
+							fn := "WLock"
+							if name == "RLock" {
+								fn = "RLock"
+							}
+							ed.replace(off(x.Pos()), off(x.End()), rtImportName+"."+fn+"("+syncKey(sel)+", "+recv+"."+try+", "+recv+"."+name+")")
+						} else {
+							ed.replace(off(x.Pos()), off(x.End()), rtImportName+".Lock("+recv+"."+try+", "+recv+"."+name+")")
+						}
 					} else {
 						ed.insert(off(x.Pos()), rtImportName+".CSEnter(")
 						ed.replace(off(sel.End()), off(x.End()), ")")
@@ -733,6 +743,11 @@ func typedRewrites(fset *token.FileSet, f *ast.File, info *types.Info, ed *edito
 						ed.replace(off(x.Pos()), off(x.End()), rtImportName+".CondWait("+syncKey(sel)+")")
 					default:
 						report.ChanOps = append(report.ChanOps, where(x)+" sync.Wait")
+					}
+				case "Signal", "Broadcast":
+					if strings.Contains(recvTypeName(sel), "Cond") && len(x.Args) == 0 {
+						report.SyncSites = append(report.SyncSites, where(x)+" Cond."+name)
+						ed.replace(off(x.Pos()), off(x.End()), rtImportName+".Cond"+name+"("+syncKey(sel)+")")
 					}
 				case "Get":
 					if strings.Contains(recvTypeName(sel), "sync.Pool") && len(x.Args) == 0 {
@@ -1415,6 +1430,91 @@ func Lock(try func() bool, lock func()) {
 		return
 	}
 	for !try() {
+		if b := Blocked; b != nil {
+			b()
+		}
+	}
+}
+
+type rwEnt struct {
+	p       uintptr
+	pending bool
+}
+
+var rwTab [64]rwEnt
+
+//go:norace
+func rwPending(p uintptr) bool {
+	for i := range rwTab {
+		if rwTab[i].pending && rwTab[i].p == p {
+			return true
+		}
+	}
+	return false
+}
+
+//go:norace
+func rwSet(p uintptr, v bool) bool {
+	for i := range rwTab {
+		if rwTab[i].pending && rwTab[i].p == p {
+			rwTab[i].pending = v
+			return true
+		}
+	}
+	if !v {
+		return true
+	}
+	for i := range rwTab {
+		if !rwTab[i].pending {
+			rwTab[i] = rwEnt{p, true}
+			return true
+		}
+	}
+	return false
+}
+
+//go:norace
+func rwReset() { rwTab = [64]rwEnt{} }
+
+// WLock replaces rw.Lock() on a sync.RWMutex. Like the real one it announces itself:
+// while a writer is waiting, RLock attempts by others wait too.
+func WLock(key interface{}, try func() bool, lock func()) {
+	if Hook == nil {
+		lock()
+		return
+	}
+	if try() {
+		return
+	}
+	p := reflect.ValueOf(key).Pointer()
+	mine := false
+	defer func() {
+		if mine {
+			rwSet(p, false)
+		}
+	}()
+	for {
+		if !mine && !rwPending(p) {
+			mine = rwSet(p, true)
+		}
+		if b := Blocked; b != nil {
+			b()
+		}
+		if try() {
+			return
+		}
+	}
+}
+
+// RLock replaces rw.RLock() on a sync.RWMutex: it waits while a writer holds the lock
+// or is waiting for it.
+func RLock(key interface{}, try func() bool, lock func()) {
+	if Hook == nil {
+		lock()
+		return
+	}
+	p := reflect.ValueOf(key).Pointer()
+	for rwPending(p) || !try() {
 		if b := Blocked; b != nil {
 			b()
 		}
@@ -2104,15 +2204,95 @@ func WGWait(wg *sync.WaitGroup) {
 	wg.Wait()
 }
 
-// CondWait replaces c.Wait(): unlock, give way, lock again (callers of Cond.Wait must
-// re-check their condition in a loop anyway).
+type condEnt struct {
+	c      *sync.Cond
+	ticket uint64
+	woken  bool
+	used   bool
+}
+
+var condTab [128]condEnt
+var condTicket uint64
+
+//go:norace
+func condRegister(c *sync.Cond) int {
+	for i := range condTab {
+		if !condTab[i].used {
+			condTicket++
+			condTab[i] = condEnt{c, condTicket, false, true}
+			return i
+		}
+	}
+	return -1
+}
+
+//go:norace
+func condWoken(i int) bool { return condTab[i].woken }
+
+//go:norace
+func condFree(i int) { condTab[i] = condEnt{} }
+
+//go:norace
+func condWake(c *sync.Cond, all bool) {
+	for {
+		best := -1
+		for i := range condTab {
+			e := &condTab[i]
+			if e.used && !e.woken && e.c == c && (best < 0 || e.ticket < condTab[best].ticket) {
+				best = i
+			}
+		}
+		if best < 0 {
+			return
+		}
+		condTab[best].woken = true
+		if !all {
+			return
+		}
+	}
+}
+
+//go:norace
+func condReset() { condTab = [128]condEnt{}; condTicket = 0 }
+
+// CondSignal / CondBroadcast replace c.Signal() / c.Broadcast(): they wake the longest
+// waiting / all simulated waiters registered on c. A signal nobody waits for is lost,
+// as with the real sync.Cond.
+func CondSignal(c *sync.Cond) {
+	if simulating() {
+		condWake(c, false)
+	}
+	c.Signal()
+}
+
+func CondBroadcast(c *sync.Cond) {
+	if simulating() {
+		condWake(c, true)
+	}
+	c.Broadcast()
+}
+
+// CondWait replaces c.Wait(): register as a waiter, unlock, give way until a Signal or
+// Broadcast issued after the registration wakes this waiter, lock again. There are no
+// spurious wake-ups (sync.Cond has none), so a lost wake-up blocks for ever and ends in
+// the deadlock detector.
 func CondWait(c *sync.Cond) {
 	if !simulating() {
 		c.Wait()
 		return
 	}
+	slot := condRegister(c)
 	c.L.Unlock()
-	if b := Blocked; b != nil {
+	if slot >= 0 {
+		func() {
+			defer condFree(slot)
+			for !condWoken(slot) {
+				if b := Blocked; b != nil {
+					b()
+				}
+			}
+		}()
+	} else if b := Blocked; b != nil {
 		b()
 	}
 	if tl, ok := c.L.(interface{ TryLock() bool }); ok {
@@ -2146,6 +2326,8 @@ func RegisterReset(f func()) { resets = append(resets, f) }
 // ResetAll returns every instrumented package to its freshly initialised state.
 func ResetAll() {
 	wgReset()
+	rwReset()
+	condReset()
 	poolReset()
 	pendReset()
 	waitReset()
